@@ -1094,7 +1094,15 @@ class Wtp:
         for page in self.get_all_pages([template_ns_id]):
             used_templates, pre_expand = check_template_func(self, page)
             for used_template in used_templates:
-                included_map[used_template].add(page.title)
+                # Key the map by the stored title of the used template: the
+                # name may be written with a lower-case initial, with "_",
+                # or with the namespace prefix or one of its aliases
+                used_page = self.get_page(used_template, template_ns_id)
+                if used_page is None:
+                    continue
+                included_map[
+                    used_page.title.removeprefix(template_ns_local_name + ":")
+                ].add(page.title)
             if pre_expand:
                 self.set_template_pre_expand(page.title)
                 expand_stack.append(page)
@@ -1145,6 +1153,8 @@ class Wtp:
         """
         self.db_conn.execute(query_str)
         self.db_conn.commit()
+        # The flags of memoised pages have changed
+        self.get_page.cache_clear()
 
     def set_template_pre_expand(self, name: str) -> None:
         self.db_conn.execute(
